@@ -101,7 +101,7 @@ def live_ops(H, tall):
     uncropped = st.tuples(st.just("print"), st.lists(st.sampled_from(WORDS), min_size=1, max_size=1), st.sampled_from([{"soft_wrap": True}, {"crop": False}, {"soft_wrap": True, "crop": False}]))
     return st.one_of(
         st.tuples(st.just("print"), text_lines()), st.tuples(st.just("print"), text_lines()), st.tuples(st.just("log"), st.sampled_from(WORDS)), uncropped,
-        st.tuples(st.just("update"), fl, st.booleans()), st.tuples(st.just("update"), fl, st.booleans()), st.tuples(st.just("refresh")),
+        st.tuples(st.just("update"), fl, st.booleans()), st.tuples(st.just("update"), fl, st.booleans()), st.tuples(st.just("update"), fl, st.booleans(), st.just(True)), st.tuples(st.just("refresh")),
         st.tuples(st.just("stdout"), st.sampled_from(["out one\n", "a\nb\n", "partial", "tail\n"])), st.tuples(st.just("stop")), st.tuples(st.just("start")),
     ).map(list)
 
@@ -188,7 +188,8 @@ class Runner:
 
         fault = self.fault
         if self.kind == "live":
-            self.display = Live(Frame(self.rend, fault), console=self.con, auto_refresh=False, transient=self.transient, vertical_overflow=self.spec["overflow"],
+            self.frame_obj = Frame(self.rend, fault)
+            self.display = Live(self.frame_obj, console=self.con, auto_refresh=False, transient=self.transient, vertical_overflow=self.spec["overflow"],
                                 redirect_stdout=self.spec["redirect"], redirect_stderr=self.spec.get("redirect_err", self.spec["redirect"]))
         elif self.kind == "progress":
             class Col(ProgressColumn):
@@ -323,7 +324,13 @@ class Runner:
                 self.twin.print(op[1], end="", markup=False, highlight=False, emoji=False)
             elif name == "update":
                 self.rend = list(op[1])
-                d.update(Frame(self.rend, self.fault), refresh=op[2])
+                if len(op) > 3 and op[3] and getattr(self, "frame_obj", None) is not None:
+                    # the renderable that is already displayed was edited in place and is handed to update() again
+                    self.frame_obj.lines = self.rend
+                    self.ctx.cls("update-with-the-same-object")
+                else:
+                    self.frame_obj = Frame(self.rend, self.fault)
+                d.update(self.frame_obj, refresh=op[2])
                 if not op[2]:
                     return self.sync(op, top)
             elif name == "refresh":
@@ -636,7 +643,11 @@ class Faults(Part):
             d.console.log(op[1])
         elif name == "update":
             r.rend = list(op[1])
-            d.update(Frame(r.rend, r.fault), refresh=op[2])
+            if len(op) > 3 and op[3] and getattr(r, "frame_obj", None) is not None:
+                r.frame_obj.lines = r.rend
+            else:
+                r.frame_obj = Frame(r.rend, r.fault)
+            d.update(r.frame_obj, refresh=op[2])
         elif name == "refresh":
             d.refresh() if r.kind != "status" else d._live.refresh()
         elif name == "status":
